@@ -42,6 +42,17 @@ package oc
 //@   claims at-call
 //@   at-call v.IsSet("neighbor.timers.config.keepalive-interval") requires called(validateHoldTime)
 //@   at-call validateHoldTime( requires arg0 == n.Timers.Config.HoldTime
+// ... and the restart time a neighbour ends up with - configured, or defaulted from the hold time - is one the 12-bit
+// field of the Graceful Restart capability can carry; the OPEN can then always be built
+//@   at-call v.IsSet("neighbor.graceful-restart.config.deferral-time") requires n.GracefulRestart.Config.RestartTime <= 4095
 //@ func validateHoldTime
 //@   claims post
 //@   ensures result == nil <==> (t == 0.0 || (t >= 3.0 && t <= 65535.0))
+
+// from C08 "the OPEN sent reflects the configuration": what a peer group configures for ADD-PATH on one of its
+// address families is what its members get for that family - the group-level setting fills in only where the family
+// says nothing of its own
+//@ func NewPeerGroupFromConfigStruct
+//@   claims step
+//@   loop 0 step afiSafi != nil && f.AddPaths.Config.Receive ==> afiSafi.AddPaths.Config.Receive
+//@   loop 0 step afiSafi != nil && f.AddPaths.Config.SendMax != 0 ==> afiSafi.AddPaths.Config.SendMax == uint32(f.AddPaths.Config.SendMax)
